@@ -304,9 +304,19 @@ func TestVerifC13(t *testing.T) {
 			adminStop := make(chan struct{})
 			var adminWg sync.WaitGroup
 			var adminOps atomic.Int64
+			// W3 / W4 run two administration goroutines (the second one starts at another
+			// position of the cycle), so that a snapshot, a compaction, a compression and an
+			// index drop also overlap EACH OTHER, not only the clients.
+			nAdmins := 0
 			if wl != "W1_mix" {
+				nAdmins = 1
+				if wl != "W2_admin" && cs.Idx%8 >= 4 {
+					nAdmins = 2
+				}
+			}
+			for a := 0; a < nAdmins; a++ {
 				adminWg.Add(1)
-				go func() {
+				go func(offset int) {
 					defer adminWg.Done()
 					defer func() {
 						if p := recover(); p != nil {
@@ -314,7 +324,7 @@ func TestVerifC13(t *testing.T) {
 							firstPanic.CompareAndSwap(nil, fmt.Sprintf("admin goroutine panicked: %v\n%s", p, debug.Stack()))
 						}
 					}()
-					for i := 0; ; i++ {
+					for i := offset; ; i++ {
 						select {
 						case <-adminStop:
 							return
@@ -352,7 +362,7 @@ func TestVerifC13(t *testing.T) {
 						ctx.Touch()
 						time.Sleep(100 * time.Microsecond)
 					}
-				}()
+				}(a * 3)
 			}
 			wg.Wait()
 			close(adminStop)
@@ -491,7 +501,7 @@ func TestVerifC13(t *testing.T) {
 				ctx.Count("kv_ops_checked_linearizable", int64(len(h)))
 			}
 			ctx.Eval(1)
-			ctx.Distinct(fmt.Sprintf("%s/%d/%d/%d", wl, nClients, procs, nPairs/50))
+			ctx.Distinct(fmt.Sprintf("%s/%d/%d/%d/a%d", wl, nClients, procs, nPairs/50, nAdmins))
 			ctx.Sample("workload", 4, map[string]any{"workload": wl, "clients": nClients, "ops_per_client": perClient, "gomaxprocs": procs, "hook_pairs": nPairs})
 		})
 	})
